@@ -6,6 +6,7 @@ from fractions import Fraction
 from hypothesis import strategies as st
 
 from ..env import Env, lit, NoLiteral
+from ..values import same_value
 from ..law import Law, Violation, Skip
 from ..values import dec, enc, err, CODES8
 
@@ -233,10 +234,14 @@ def check_stats(case):
     kw = {'vars': {'v_arr': dec(case['args']), 'v_k': k}}
     want = sorted(map(fr, items), reverse=True)[k - 1]
     r = Env(**kw).parse('LARGE(v_arr,v_k)')
+    if not same_value(kw['vars']['v_arr'], dec(case['args'])):
+        raise Violation('LARGE(%r, %d) reordered or edited the list the host handed over: it is now %r' % (case['args'], k, kw['vars']['v_arr']), enc(kw['vars']['v_arr']), enc(case['args']))
     if r['error'] is not None or not close(r['result'], want, scale=0.0):
         raise Violation('LARGE(%r, %d) -> %r, expected %r' % (case['args'], k, r['error'] or r['result'], float(want)), r['error'] or enc(r['result']), float(want))
     kw = {'vars': {'v_arr': dec(list(items)), 'v_k': k}}
-    r = Env(**kw).parse('LARGE(v_arr,%d)' % k)
+    r = Env(**kw).parse('LARGE(v_arr,%d)+0*SUM(v_arr)' % k)
+    if not same_value(kw['vars']['v_arr'], dec(list(items))):
+        raise Violation('LARGE(%r, %d) reordered or edited the flat list the host handed over: it is now %r' % (items, k, kw['vars']['v_arr']), enc(kw['vars']['v_arr']), enc(list(items)))
     if r['error'] is not None or not close(r['result'], want):
         raise Violation('LARGE(%r, %d) -> %r, expected %r' % (items, k, r['error'] or r['result'], float(want)), r['error'] or enc(r['result']), float(want))
 
@@ -384,7 +389,7 @@ def crit_text(crit):
 
 
 cell_num = st.one_of(st.integers(-20, 20), st.integers(-80, 80).map(lambda k: k / 4.0), st.integers(-1000, 1000), st.integers(-20, 20), st.sampled_from([1e-05, 2.5e-07, -1e-05, 1e+16, 1.5e+20, 3e-05, 1e-06, -2e+17]))
-WORD = st.text(st.sampled_from('abcx.-[ '), min_size=1, max_size=4)
+WORD = st.text(st.sampled_from('abcx.-[ abcx\n'), min_size=1, max_size=4)        # (a line feed is a character like any other for * and ?)
 
 
 @st.composite
